@@ -24,6 +24,9 @@
 // chunk is returned together with io.EOF (n > 0 and io.EOF in one call); flag z: every chunk is
 // preceded by one to three reads that return (0, nil).
 //
+// <hex> is two hex digits per byte, with runs written as r<count>z<hex block>z (rle.go); "-" is
+// the empty string, "." the empty list.
+//
 // A panic inside the package is recorded as the output PANIC (after the observations made so far);
 // a scanner that never stops returning tokens as RUNAWAY (see runaway).
 package main
@@ -124,13 +127,13 @@ type held struct {
 func (h held) String() string {
 	out := h.pre
 	if h.hasToks {
-		out += tr.HexList(h.toks)
+		out += hxList(h.toks)
 		if h.hasTxt {
 			out += ":"
 		}
 	}
 	if h.hasTxt {
-		out += tr.Hex(h.txt)
+		out += hx(h.txt)
 	}
 	return out + h.post
 }
@@ -162,24 +165,24 @@ func exec1(in string, partial *[]string) string {
 	f := strings.FieldsFunc(in, func(r rune) bool { return r == ' ' || r == '_' })
 	switch f[0] {
 	case "S":
-		if runaway("0", tr.UnHex(f[1])) {
+		if runaway("0", unhx(f[1])) {
 			return "RUNAWAY"
 		}
-		fs, ok := shell.Split(tr.UnHex(f[1]))
-		return tr.B(ok) + " " + tr.HexList(fs)
+		fs, ok := shell.Split(unhx(f[1]))
+		return tr.B(ok) + " " + hxList(fs)
 	case "Q":
-		return tr.Hex(shell.Quote(tr.UnHex(f[1])))
+		return hx(shell.Quote(unhx(f[1])))
 	case "J":
-		return tr.Hex(shell.Join(tr.UnHexList(f[1])))
+		return hx(shell.Join(unhxList(f[1])))
 	case "R":
-		j := shell.Join(tr.UnHexList(f[1]))
+		j := shell.Join(unhxList(f[1]))
 		if runaway("0", j) {
 			return "RUNAWAY"
 		}
 		fs, ok := shell.Split(j)
-		return tr.B(ok) + " " + tr.HexList(fs)
+		return tr.B(ok) + " " + hxList(fs)
 	case "H":
-		ss := tr.UnHexList(f[1])
+		ss := unhxList(f[1])
 		qs := make([]string, 0, len(ss))
 		js := make([]string, 0, len(ss))
 		for _, s := range ss {
@@ -198,9 +201,9 @@ func exec1(in string, partial *[]string) string {
 		if len(ss)%3 == 0 {
 			_ = shell.Quote(" overwrite the pooled buffer once more ")
 		}
-		return tr.HexList(qs) + ";" + tr.HexList(js)
+		return hxList(qs) + ";" + hxList(js)
 	case "N":
-		src := tr.UnHex(f[2])
+		src := unhx(f[2])
 		if len(f) > 3 && strings.ContainsAny(f[3], "sabc") && runaway(f[1], src) {
 			return "RUNAWAY"
 		}
@@ -371,33 +374,33 @@ func bigToken(r *tr.Rand, n int) string {
 func special(s string) bool { return strings.ContainsAny(s, " \t\n\\'\"|&;<>()$`*?[#~=%") }
 
 func main() {
-	tr.Main("C15: every single byte, all strings to length 3 (quick) / 4 (thorough) over a 28-symbol metacharacter alphabet for Quote and Split(Join), random lists of random strings, Unicode white space, hold cases (every result of a series of Quote/Join calls is read only after the last call, some after a GC), concurrent workers that read their results a window of calls later; C16: every byte value alone, inside a word and inside each kind of quoting, all strings to length 3 (quick) / 4 (thorough) over a 10-symbol alphabet with both blanks, NUL and a non-ASCII byte, all strings over the six tokenizer classes to length 6 (quick) / 8 (thorough) for Split, every Unicode white-space code point as UTF-8, scanner sessions under eleven reader fragmentations (fixed and random chunks, a last chunk delivered together with io.EOF, empty reads) with Rest after every number of Next calls under every fragmentation, Err/Reset/Scanner.Split/Each sessions, random long inputs, inputs and single tokens longer than bufio's buffer. A case is non-trivial when its input contains a quoting character, separator or metacharacter; distinct = distinct input lines.",
+	tr.Main("C15: every single byte, all strings to length 3 (quick) / 4 (thorough) over a 28-symbol metacharacter alphabet for Quote and Split(Join), random lists of random strings, Unicode white space, hold cases (every result of a series of Quote/Join calls is read only after the last call, some after a GC), concurrent workers that read their results a window of calls later; C16: every byte value alone, inside a word and inside each kind of quoting, all strings to length 3 (quick) / 4 (thorough) over a 10-symbol alphabet with both blanks, NUL and a non-ASCII byte, all strings over the six tokenizer classes to length 6 (quick) / 8 (thorough) for Split, every Unicode white-space code point as UTF-8, scanner sessions under eleven reader fragmentations (fixed and random chunks, a last chunk delivered together with io.EOF, empty reads) with Rest after every number of Next calls under every fragmentation, Err/Reset/Scanner.Split/Each sessions, random long inputs, inputs and single tokens longer than bufio's buffer. Both: scale streams (scale.go) -- lengths, run lengths, element counts and reader chunk sizes 2^k-1, 2^k, 2^k+1 for k = 6..13 and beyond 2*4096, smallest first; C15: plain filler plus ONE special character class (each of the 22 bytes Quote protects, alone or with a single quote) at the end, start, around the leading power-of-two block, everywhere, sparse, alternating, through Quote, Join, Split(Join) and hold cases, lists of 2^k short elements; C16: 34 kinds of runs (bare / single- / double-quoted text, quoted blanks, escape runs, quotes and escapes opening exactly at the boundary, unterminated runs, continuation runs, separator runs of one class, many short tokens) through Split and through scanner sessions (Rest right after and right before the long token, full scan with Err, Scanner.Split, Each) under chunk sizes tied to the run length with the e and z flags. A case is non-trivial when its input contains a quoting character, separator or metacharacter; distinct = distinct input lines.",
 		exec, func(g *tr.G) {
 			switch g.Prop {
 			case "C15":
 				for b := 0; b < 256; b++ {
 					s := string([]byte{byte(b)})
-					g.Emit("Q "+tr.Hex(s), special(s), "single-byte")
-					g.Emit("R "+tr.HexList([]string{s}), special(s))
+					g.Emit("Q "+hx(s), special(s), "single-byte")
+					g.Emit("R "+hxList([]string{s}), special(s))
 				}
 				g.Emit("J .", false, "empty-list")
 				g.Emit("R .", false, "empty-list")
 				g.Emit("H .", false, "empty-list")
-				g.Emit("R "+tr.HexList([]string{""}), true, "empty-string")
-				g.Emit("R "+tr.HexList([]string{"", ""}), true, "empty-string")
-				g.Emit("J "+tr.HexList([]string{"", "", ""}), true, "empty-string")
-				g.Emit("H "+tr.HexList([]string{"", "a b", "", "'"}), true, "empty-string")
+				g.Emit("R "+hxList([]string{""}), true, "empty-string")
+				g.Emit("R "+hxList([]string{"", ""}), true, "empty-string")
+				g.Emit("J "+hxList([]string{"", "", ""}), true, "empty-string")
+				g.Emit("H "+hxList([]string{"", "a b", "", "'"}), true, "empty-string")
 				for _, u := range uniSpaces {
 					for _, s := range []string{u, "a" + u + "b", u + "a", "a" + u, "a b" + u, u + "'"} {
-						g.Emit("Q "+tr.Hex(s), true, "unicode-space")
-						g.Emit("R "+tr.HexList([]string{s, u}), true, "unicode-space")
+						g.Emit("Q "+hx(s), true, "unicode-space")
+						g.Emit("R "+hxList([]string{s, u}), true, "unicode-space")
 					}
 				}
 				allStrings(metaAlpha, g.Scale(3, 4), func(s string) {
-					g.Emit("Q "+tr.Hex(s), special(s), "exhaustive-meta")
+					g.Emit("Q "+hx(s), special(s), "exhaustive-meta")
 					parts := strings.Split(s, "a")
-					g.Emit("J "+tr.HexList(parts), special(s))
-					g.Emit("R "+tr.HexList(parts), special(s))
+					g.Emit("J "+hxList(parts), special(s))
+					g.Emit("R "+hxList(parts), special(s))
 				})
 				// hold: all short lists over a small alphabet of strings that take each path of
 				// Quote (copied unchanged, wrapped, escaped quote, empty), then random ones
@@ -405,7 +408,7 @@ func main() {
 				var rec func(cur []string, n int)
 				rec = func(cur []string, n int) {
 					if n == 0 {
-						g.Emit("H "+tr.HexList(cur), true, "hold")
+						g.Emit("H "+hxList(cur), true, "hold")
 						return
 					}
 					for _, a := range holdAlpha {
@@ -421,7 +424,7 @@ func main() {
 					for j := range ss {
 						ss[j] = randString(g.R, metaAlpha, 1+g.R.Intn(40))
 					}
-					g.Emit("H "+tr.HexList(ss), true, "hold-random")
+					g.Emit("H "+hxList(ss), true, "hold-random")
 				}
 				// long arguments: results larger than any small-buffer threshold, still held
 				for i := 0; i < g.Scale(60, 1500); i++ {
@@ -430,7 +433,7 @@ func main() {
 					for j := range ss {
 						ss[j] = randString(g.R, metaAlpha, 100+g.R.Intn(g.Scale(3000, 6000)))
 					}
-					g.Emit("H "+tr.HexList(ss), true, "hold-long")
+					g.Emit("H "+hxList(ss), true, "hold-long")
 				}
 				for i := 0; i < g.Scale(20000, 400000); i++ {
 					n := g.R.Intn(5)
@@ -438,10 +441,10 @@ func main() {
 					for j := range ss {
 						ss[j] = randString(g.R, metaAlpha, 12)
 					}
-					g.Emit("R "+tr.HexList(ss), true, "random-list")
-					g.Emit("J "+tr.HexList(ss), true)
+					g.Emit("R "+hxList(ss), true, "random-list")
+					g.Emit("J "+hxList(ss), true)
 					if n > 0 {
-						g.Emit("Q "+tr.Hex(ss[0]), special(ss[0]))
+						g.Emit("Q "+hx(ss[0]), special(ss[0]))
 					}
 				}
 				// pooled buffers under concurrency: every worker keeps the results of a window of
@@ -464,7 +467,7 @@ func main() {
 								ss := []string{randString(r, metaAlpha, 20), randString(r, metaAlpha, 3)}
 								switch j % 3 {
 								case 0:
-									in := "Q " + tr.Hex(ss[0])
+									in := "Q " + hx(ss[0])
 									var out string
 									if p := tr.Catch(func() { out = shell.Quote(ss[0]) }); p != "" {
 										ps = append(ps, pend{in, "PANIC", false})
@@ -472,7 +475,7 @@ func main() {
 										ps = append(ps, pend{in, out, true})
 									}
 								case 1:
-									in := "J " + tr.HexList(ss)
+									in := "J " + hxList(ss)
 									var out string
 									if p := tr.Catch(func() { out = shell.Join(ss) }); p != "" {
 										ps = append(ps, pend{in, "PANIC", false})
@@ -480,7 +483,7 @@ func main() {
 										ps = append(ps, pend{in, out, true})
 									}
 								default:
-									in := "R " + tr.HexList(ss)
+									in := "R " + hxList(ss)
 									ps = append(ps, pend{in, exec(in), false})
 								}
 								if j%16 == 5 {
@@ -490,7 +493,7 @@ func main() {
 							mu.Lock()
 							for _, p := range ps {
 								if p.raw {
-									g.W.Case(p.in, tr.Hex(p.out), true, "concurrent-held")
+									g.W.Case(p.in, hx(p.out), true, "concurrent-held")
 								} else {
 									g.W.Case(p.in, p.out, true, "concurrent")
 								}
@@ -500,36 +503,37 @@ func main() {
 					}()
 				}
 				wg.Wait()
+				scaleC15(g)
 			case "C16":
 				// every byte value alone and inside a word: the whole byte->class map is exercised
 				for b := 0; b < 256; b++ {
 					c := string([]byte{byte(b)})
-					g.Emit("S "+tr.Hex(c), special(c), "every-byte")
-					g.Emit("S "+tr.Hex("a"+c+"b"), special(c), "every-byte")
-					g.Emit("S "+tr.Hex("\""+c+"\" '"+c+"' \\"+c), true, "every-byte")
+					g.Emit("S "+hx(c), special(c), "every-byte")
+					g.Emit("S "+hx("a"+c+"b"), special(c), "every-byte")
+					g.Emit("S "+hx("\""+c+"\" '"+c+"' \\"+c), true, "every-byte")
 				}
 				// Unicode white space is not a separator
 				for _, u := range uniSpaces {
 					for _, s := range []string{u, "a" + u + "b", u + "a", "a" + u, " " + u + " ", "a" + u + " b", u + u, "a b" + u + "c d", "\"" + u + "\"", "\\" + u} {
-						g.Emit("S "+tr.Hex(s), true, "unicode-space")
+						g.Emit("S "+hx(s), true, "unicode-space")
 					}
-					g.Emit("N 0 "+tr.Hex("a"+u+"b "+u)+" nnn", true, "unicode-space")
-					g.Emit("N 1 "+tr.Hex("a"+u+"b "+u)+" nrn", true, "unicode-space")
+					g.Emit("N 0 "+hx("a"+u+"b "+u)+" nnn", true, "unicode-space")
+					g.Emit("N 1 "+hx("a"+u+"b "+u)+" nrn", true, "unicode-space")
 				}
 				allStrings(wideAlpha, g.Scale(3, 4), func(s string) {
-					g.Emit("S "+tr.Hex(s), special(s), "exhaustive-wide")
+					g.Emit("S "+hx(s), special(s), "exhaustive-wide")
 				})
 				allStrings(classAlpha, g.Scale(6, 8), func(s string) {
-					g.Emit("S "+tr.Hex(s), special(s), "exhaustive-class")
+					g.Emit("S "+hx(s), special(s), "exhaustive-class")
 				})
 				sess := func(s string, frags []string) {
 					nn := len(s)/2 + 3
 					for _, k := range frags {
 						// full scan, then extra Next calls past the end
-						g.Emit("N "+k+" "+tr.Hex(s)+" "+strings.Repeat("n", nn), special(s), "session")
+						g.Emit("N "+k+" "+hx(s)+" "+strings.Repeat("n", nn), special(s), "session")
 						// Rest after every number of Next calls, under this fragmentation
 						for i := 0; i <= len(s)/2+1 && i < 6; i++ {
-							g.Emit("N "+k+" "+tr.Hex(s)+" "+strings.Repeat("n", i)+"rnn", special(s), "rest")
+							g.Emit("N "+k+" "+hx(s)+" "+strings.Repeat("n", i)+"rnn", special(s), "rest")
 						}
 					}
 				}
@@ -557,7 +561,7 @@ func main() {
 						if ops == "" {
 							return
 						}
-						g.Emit("N "+tr.Pick(g.R, allFrags)+" "+tr.Hex(s+" b")+" "+ops+"ne", special(s), "ops")
+						g.Emit("N "+tr.Pick(g.R, allFrags)+" "+hx(s+" b")+" "+ops+"ne", special(s), "ops")
 					})
 				})
 				for i := 0; i < g.Scale(4000, 80000); i++ {
@@ -571,11 +575,11 @@ func main() {
 							ops[j] = tr.Pick(g.R, opAlpha)
 						}
 					}
-					g.Emit("N "+tr.Pick(g.R, allFrags)+" "+tr.Hex(s)+" "+string(ops), true, "ops-random")
+					g.Emit("N "+tr.Pick(g.R, allFrags)+" "+hx(s)+" "+string(ops), true, "ops-random")
 				}
 				for i := 0; i < g.Scale(3000, 100000); i++ {
 					s := randString(g.R, classAlpha, 40)
-					g.Emit("S "+tr.Hex(s), true, "random-long")
+					g.Emit("S "+hx(s), true, "random-long")
 					if i%5 == 0 {
 						sess(s, pickFrags(2))
 					}
@@ -588,15 +592,15 @@ func main() {
 						sb.WriteString(randString(g.R, classAlpha, 30))
 					}
 					s := sb.String()
-					g.Emit("S "+tr.Hex(s), true, "over-buffer")
+					g.Emit("S "+hx(s), true, "over-buffer")
 					for _, k := range bigFrags {
 						depth := g.R.Intn(40)
 						if g.R.Chance(1, 3) {
 							depth = 200 + g.R.Intn(600)
 						}
-						g.Emit("N "+k+" "+tr.Hex(s)+" "+strings.Repeat("n", depth)+"rn", true, "over-buffer-rest")
+						g.Emit("N "+k+" "+hx(s)+" "+strings.Repeat("n", depth)+"rn", true, "over-buffer-rest")
 					}
-					g.Emit("N "+tr.Pick(g.R, bigFrags)+" "+tr.Hex(s)+" nnnsne", true, "over-buffer")
+					g.Emit("N "+tr.Pick(g.R, bigFrags)+" "+hx(s)+" nnnsne", true, "over-buffer")
 				}
 				// words separated by runs of one to three separators, longer than the buffer: Rest right
 				// after the first few tokens (most of a refill still buffered), deep inside, and around
@@ -622,7 +626,7 @@ func main() {
 							depths = append(depths, atRefill-1, atRefill, atRefill+1, atRefill+2, nw)
 						}
 						for _, depth := range depths {
-							g.Emit("N "+k+" "+tr.Hex(s)+" "+strings.Repeat("n", depth)+"rn", true, "over-buffer-blanks")
+							g.Emit("N "+k+" "+hx(s)+" "+strings.Repeat("n", depth)+"rn", true, "over-buffer-blanks")
 						}
 					}
 				}
@@ -632,13 +636,14 @@ func main() {
 				for i := 0; i < g.Scale(6, 40); i++ {
 					tok := bigToken(g.R, 4200+g.R.Intn(g.Scale(4000, 9000)))
 					s := randString(g.R, classAlpha, 6) + " " + tok + "  " + randString(g.R, classAlpha, 20)
-					g.Emit("S "+tr.Hex(s), true, "big-token")
+					g.Emit("S "+hx(s), true, "big-token")
 					for j, k := range bigFrags {
 						if g.Thorough() || j%3 == i%3 {
-							g.Emit("N "+k+" "+tr.Hex(s)+" "+strings.Repeat("n", 1+g.R.Intn(4))+"rn", true, "big-token")
+							g.Emit("N "+k+" "+hx(s)+" "+strings.Repeat("n", 1+g.R.Intn(4))+"rn", true, "big-token")
 						}
 					}
 				}
+				scaleC16(g)
 			}
 		})
 }
